@@ -42,6 +42,7 @@ structure PollPost (sc : Sched) (p : Peer) (b' : Nat) (fut : HsFut) (o : Ossl) (
   mono : Mono v v'
   meas : o'.tape.length + o'.post ≤ o.tape.length + o.post
   first : fut = .start → Spot sc fut' o' v' + K sc + 1 ≤ Spot sc fut o v
+  nostart : fut' ≠ .start
   res : match r with
     | .pending .self => v'.own = true ∧ Spot sc fut' o' v' + 1 ≤ Spot sc fut o v ∧ fut' ≠ .done
     | .pending .reg => fut' = .mid ∧ (fut = .start ∨ v'.own = v.own) ∧ Spot sc fut' o' v' ≤ Spot sc fut o v + sc.dr ∧
@@ -149,7 +150,7 @@ theorem poll_mid_spec {sc : Sched} {p : Peer} {b' : Nat} {o : Ossl} {v : View}
   cases r with
   | wouldBlock pd =>
     simp only [midBody, hres]
-    refine ⟨hrest1, hme, hmono, hmeas, by simp, ?_⟩
+    refine ⟨hrest1, hme, hmono, hmeas, by simp, by simp, ?_⟩
     cases pd with
     | self =>
       simp only at hres1 ⊢
@@ -174,13 +175,13 @@ theorem poll_mid_spec {sc : Sched} {p : Peer} {b' : Nat} {o : Ossl} {v : View}
     rcases pollFlush_phase (p := p) (b' := b') hl2 rfl hk2 rfl ht1 hp1 hh1.early with
       ⟨v2, heq, hrest2, hmono2, hown2, hS⟩ | ⟨v2, heq, hrest2, hmono2, hS, hhd2, hcf2⟩
     · simp only [midBody, hres, heq]
-      refine ⟨hrest2, hme, hmono.trans hmono2, by simp [ht1, hp1], by simp, ?_⟩
+      refine ⟨hrest2, hme, hmono.trans hmono2, by simp [ht1, hp1], by simp, by simp, ?_⟩
       refine ⟨hown2, ?_, by simp⟩
       simp only [Spot, rank, S0_ctx] at *
       have := K4 sc 1
       omega
     · simp only [midBody, hres, heq]
-      refine ⟨hrest2, hme, hmono.trans hmono2, by simp [ht1, hp1], by simp, ?_⟩
+      refine ⟨hrest2, hme, hmono.trans hmono2, by simp [ht1, hp1], by simp, by simp, ?_⟩
       refine ⟨rfl, ?_, hhd2, hcf2⟩
       simp only [Spot, rank, S0_ctx] at *
       have h4 := K4 sc 1
@@ -204,11 +205,11 @@ theorem poll_flush_spec {sc : Sched} {p : Peer} {b' : Nat} {o : Ossl} {v : View}
   rcases pollFlush_phase (p := p) (b' := b') hl hc hk hh ht hp he with
     ⟨v2, heq, hrest2, hmono2, hown2, hS⟩ | ⟨v2, heq, hrest2, hmono2, hS, hhd2, hcf2⟩
   · simp only [heq]
-    refine ⟨hrest2, rfl, hmono2, Nat.le_refl _, by simp, ?_⟩
+    refine ⟨hrest2, rfl, hmono2, Nat.le_refl _, by simp, by simp, ?_⟩
     refine ⟨hown2, ?_, by simp⟩
     simp only [Spot]; omega
   · simp only [heq]
-    refine ⟨hrest2, rfl, hmono2, Nat.le_refl _, by simp, ?_⟩
+    refine ⟨hrest2, rfl, hmono2, Nat.le_refl _, by simp, by simp, ?_⟩
     refine ⟨rfl, ?_, hhd2, hcf2⟩
     simp only [Spot, rank]
     have h4 := K4 sc 0
@@ -255,8 +256,8 @@ theorem poll_start_spec {sc : Sched} {p : Peer} {b' : Nat} {o : Ossl} {v : View}
     simp only
     generalize midBody sc { o1 with ctx := false } v1 = res2 at hmid
     obtain ⟨fut', o', v', r'⟩ := res2
-    obtain ⟨hrest', hme', hmono', hmeas', _, hres'⟩ := hmid
-    simp only at hrest' hme' hmono' hmeas' hres'
+    obtain ⟨hrest', hme', hmono', hmeas', _, hns', hres'⟩ := hmid
+    simp only at hrest' hme' hmono' hmeas' hres' hns'
     have hdr := dr_lt_K sc
     have h43 := K4 sc 2
     have h42 := K4 sc 1
@@ -273,7 +274,7 @@ theorem poll_start_spec {sc : Sched} {p : Peer} {b' : Nat} {o : Ossl} {v : View}
     have hfirst : Spot sc fut' o' v' + K sc + 1 ≤ Spot sc .start o v := by
       simp only [Spot, rank, S0_ctx] at hbound ⊢
       omega
-    refine ⟨hrest', hme'.trans hme, hmono.trans hmono', Nat.le_trans hmeas' hmeas, fun _ => hfirst, ?_⟩
+    refine ⟨hrest', hme'.trans hme, hmono.trans hmono', Nat.le_trans hmeas' hmeas, fun _ => hfirst, hns', ?_⟩
     dsimp only
     cases r' with
     | pending pd' =>
@@ -295,5 +296,18 @@ theorem poll_start_spec {sc : Sched} {p : Peer} {b' : Nat} {o : Ossl} {v : View}
       omega
     | err => exact absurd hres' id
     | panic => exact absurd hres' id
+
+/-- **one poll of the handshake future**, whatever its state -/
+theorem pollHandshake_spec {sc : Sched} {p : Peer} {b' : Nat} {fut : HsFut} {o : Ossl} {v : View}
+    (hr : Rest sc p b' fut o v) (hfuel : o.tape.length + o.post < sc.fuel) (hne : fut ≠ .done)
+    (hnd : fut = .start → (sslDoHandshake sc sc.fuel { o with ctx := true } v).2.2 ≠ .ok ()) :
+    PollPost sc p b' fut o v (pollHandshake sc fut o v).1 (pollHandshake sc fut o v).2.1
+      (pollHandshake sc fut o v).2.2.1 (pollHandshake sc fut o v).2.2.2 := by
+  cases fut with
+  | start => exact poll_start_spec hr hfuel (hnd rfl)
+  | mid => rw [pollHandshake_mid]; exact poll_mid_spec hr hfuel
+  | flush => exact poll_flush_spec hr
+  | done => exact absurd rfl hne
+  | failed => exact absurd hr.phase id
 
 end Compio.TlsShim
